@@ -230,6 +230,27 @@ class Rec:
         return e
 
 
+def column_ok(dtype, vals):
+    """numpy's dtype inference for a column given without dtype (the checker's table of np.asarray on Python lists): Python
+    ints that all fit int64 -> int64, all >= 0 with one beyond int64 -> uint64, but a MIX of int64-only and uint64-only values
+    (or ints with floats) -> float64, which rounds integers beyond 2**53."""
+    if dtype is not None:
+        return None
+    ints = [int(v) for v in vals if isinstance(v, int) and not isinstance(v, bool)]
+    floats = [v for v in vals if isinstance(v, float)]
+    if not ints or len(ints) + len(floats) != len(vals):
+        return None
+    big = [v for v in ints if v > 2 ** 63 - 1]
+    neg = [v for v in ints if v < 0]
+    small = [v for v in ints if v <= 2 ** 63 - 1]
+    if floats or (big and (neg or small)):
+        lossy = [v for v in ints if abs(v) > 2 ** 53 and float(v) != v or int(float(v)) != v]
+        if lossy:
+            return (f"no dtype is given, so numpy infers float64 for a column holding {sorted(set(ints))[:3]}...: {lossy[0]} is stored as "
+                    f"{float(lossy[0])!r} (integers beyond 2**53 are rounded)")
+    return None
+
+
 def V(kind, v, raw=None):
     return VALUE_CLASSES[kind + "Parameter"](v, raw)
 
@@ -245,6 +266,8 @@ KINDS = {
     "F32": (f'parameter_types.FloatParameterType("F32_T", {E}.FloatDataEncoding(32))', [("Float", 1.5, None), ("Float", 3.4028234663852886e+38, None)]),
     "F64": (f'parameter_types.FloatParameterType("F64_T", {E}.FloatDataEncoding(64))', [("Float", 0.1, None), ("Float", 1e300, None)]),
     "F16": (f'parameter_types.FloatParameterType("F16_T", {E}.FloatDataEncoding(16))', [("Float", 0.333251953125, None), ("Float", 65504.0, None)]),
+    "FCAL": (f'parameter_types.FloatParameterType("FCAL_T", {E}.FloatDataEncoding(32, default_calibrator={E}.calibrators.PolynomialCalibrator([{E}.calibrators.PolynomialCoefficient(0.001, 1), {E}.calibrators.PolynomialCoefficient(0.1, 0)])))',
+             [("Float", 0.101, 1.0), ("Float", 0.30000000000000004, 200.0)]),          # calibrated doubles that binary32 cannot hold
     "CAL": (f'parameter_types.IntegerParameterType("CAL_T", {E}.IntegerDataEncoding(8, "unsigned", default_calibrator={E}.calibrators.PolynomialCalibrator([{E}.calibrators.PolynomialCoefficient(0.25, 1)])))',
             [("Float", 1.75, 7), ("Float", 63.75, 255)]),
     "CTX": (f'parameter_types.IntegerParameterType("CTX_T", {E}.IntegerDataEncoding(8, "unsigned", context_calibrators=[{E}.calibrators.ContextCalibrator([{E}.comparisons.Comparison("1", "U8", operator=">=")], {E}.calibrators.PolynomialCalibrator([{E}.calibrators.PolynomialCoefficient(0.25, 1)]))]))',
@@ -287,6 +310,9 @@ def dtype_table(ctx: Ctx):
                     if why:
                         bad = f"{bits}-bit `{enc}` integer gets dtype {dt}: {why}"
                         break
+                why = column_ok(dt, [lo, hi, 1, hi - 1])
+                if why and not bad:
+                    bad = f"{bits}-bit `{enc}` integer gets dtype {dt}: {why}"
                 if bad:
                     break
         except Unsupported as e:
@@ -424,6 +450,9 @@ def dataset_rule(ctx: Ctx):
                         bad = f"{mode} mode, parameter kind {name}, dtype {dt!r}: {why}"
                         cat = loss_category(dt, _plain(v))
                         break
+                why = column_ok(dt, [_plain(v) for v in vals])
+                if why and not bad:
+                    bad, cat = f"{mode} mode, parameter kind {name}: {why}", "float64-inference-rounds-integers"
                 if bad:
                     break
             if (3, name) not in cells:
